@@ -21,7 +21,7 @@ func init() { register(c05{}) }
 
 func (c05) ID() string { return "C05" }
 func (c05) Cases(t fw.Tier) int {
-	return tierN(t, 12000, 500000)
+	return tierN(t, 40000, 1200000)
 }
 func (c05) Rule() string {
 	return "even cases: a random valid Schema VALUE (every exported field populated by reflection in the ways its Go type allows: nil/empty/one/many, null const, raw defaults, unknown keywords incl. case variants of standard ones, " +
